@@ -1,4 +1,5 @@
 import XlModel.Lemmas.Stream2
+import XlModel.Lemmas.StreamTree
 /-!
 C11 — StreamWriter output is equivalent to the in-memory API.
 
@@ -153,6 +154,179 @@ theorem stream_eq_memory (x : Ext) (hx : ExtLaw x) (cfg : Cfg) (s : SW) (hlog : 
 theorem written_ref_decodes {col row : Int} {ref : Bytes}
     (h : coordinatesToCellName col row false = .ok ref) : cellNameToCoordinates ref = .ok (col, row) :=
   encode_decode_int h
+
+/-! ## `writeCell` against the marshaller used everywhere else (`why_tests_cant`: "hand-assembled XML … separate from the marshaller") -/
+
+/-- The bytes `writeCell` writes are the serialisation of the element tree `writeCellTree`
+(attributes in order, `f`/`v` text through `xml.EscapeText`, inline text escaped with line feeds kept). -/
+theorem writeCell_renders_tree (x : Ext) (c : XC) : renderCell (writeCellTree x c) = writeCell x c :=
+  render_writeCellTree x c
+
+/-- **writeCell_eq_marshal** (partial: the hypothesis `c.is ≠ .runs []` is needed, see the finding below).
+For every cell record with a reference — every value kind, with or without style, formula, `xml:space` —
+the element `writeCell` writes is the element `encoding/xml` marshals for the same `xlsxC`: same attributes in
+the same order (`xml:space`, `r`, `s`, `t`), same children (`f`, `v`, `is` › `t` | runs), same text. -/
+theorem writeCell_eq_marshal_partial (x : Ext) (c : XC) (hr : c.r ≠ []) (his : c.is ≠ .runs []) :
+    writeCellTree x c = marshalTree x c :=
+  tree_eq_marshal x c hr his
+
+/-- The full statement fails on exactly one shape: rich text without runs (`[]RichTextRun{}`). The marshaller
+writes an empty `<is>` element for the non-nil `IS`, `writeCell` writes nothing. -/
+theorem finding_writeCell_omits_empty_is (x : Ext) :
+    ∃ c : XC, c.r ≠ [] ∧ writeCellTree x c ≠ marshalTree x c := by
+  refine ⟨{ r := lit "A1", s := 0, t := lit "inlineStr", v := [], f := none, is := .runs [], space := false },
+    by decide, ?_⟩
+  intro h
+  have := congrArg CellTree.kids h
+  simp [writeCellTree, marshalTree] at this
+
+/-- … and that difference is not observable: for every record, `writeCell`'s element is what the marshaller
+writes for the record a decoder reads back from it, and the decoder's record has the same observation. -/
+theorem writeCell_eq_marshal_reparsed (x : Ext) (c : XC) (hr : c.r ≠ []) :
+    writeCellTree x c = marshalTree x (reparse c) ∧ readCell x (reparse c) = readCell x c :=
+  ⟨tree_eq_marshal_reparsed x c hr, readCell_reparse x c⟩
+
+/-- Every cell an accepted SetRow writes satisfies the hypothesis (its reference is not empty). -/
+theorem setRow_cells_eq_marshal (x : Ext) (cs : ColStyles) (rs row col : Int) (items : List Item) (cells : List XC)
+    (h : rowCells x cs rs row col items = .ok cells) :
+    ∀ c ∈ cells, writeCellTree x c = marshalTree x (reparse c) :=
+  fun c hc => tree_eq_marshal_reparsed x c (rowCells_r_ne_nil x cs rs row items col cells h c hc)
+
+/-- The struct tags the marshaller model is written against (regenerated): field order, `attr`, `omitempty`,
+`chardata` of `xlsxC`, `xlsxSI`, `xlsxT`, `xlsxR`, and the leading fields of `xlsxF`. -/
+theorem marshal_tags_ok :
+    Facts.C11.tags_xlsxC = [("XMLName", "xml.Name", "xml:\"c\""), ("XMLSpace", "xml.Attr", "xml:\"space,attr,omitempty\""),
+      ("R", "string", "xml:\"r,attr,omitempty\""), ("S", "int", "xml:\"s,attr,omitempty\""),
+      ("T", "string", "xml:\"t,attr,omitempty\""), ("Cm", "*uint", "xml:\"cm,attr\""), ("Vm", "*uint", "xml:\"vm,attr\""),
+      ("Ph", "*bool", "xml:\"ph,attr\""), ("F", "*xlsxF", "xml:\"f\""), ("V", "string", "xml:\"v,omitempty\""),
+      ("IS", "*xlsxSI", "xml:\"is\""), ("f", "string", "")] ∧
+    Facts.C11.tags_xlsxSI = [("T", "*xlsxT", "xml:\"t,omitempty\""), ("R", "[]xlsxR", "xml:\"r\""),
+      ("RPh", "[]*xlsxPhoneticRun", "xml:\"rPh\""), ("PhoneticPr", "*xlsxPhoneticPr", "xml:\"phoneticPr\"")] ∧
+    Facts.C11.tags_xlsxT = [("XMLName", "xml.Name", "xml:\"t\""), ("Space", "xml.Attr", "xml:\"space,attr,omitempty\""),
+      ("Val", "string", "xml:\",chardata\"")] ∧
+    Facts.C11.tags_xlsxR = [("XMLName", "xml.Name", "xml:\"r\""), ("RPr", "*xlsxRPr", "xml:\"rPr\""), ("T", "*xlsxT", "xml:\"t\"")] ∧
+    Facts.C11.tags_xlsxF.take 2 = [("Content", "string", "xml:\",chardata\""), ("T", "string", "xml:\"t,attr,omitempty\"")] ∧
+    (Facts.C11.tags_xlsxF.drop 1).all (fun f => f.2.2.endsWith ",attr,omitempty\"" || f.2.1.startsWith "*") = true := by
+  refine ⟨by decide, by decide, by decide, by decide, by decide, by decide +kernel⟩
+
+/-! ## row attributes (height, hidden, outline level, style) -/
+
+/-- **row_attrs_eq_memory.** An accepted SetRow writes, on its `<row>` element, exactly the serialisation of
+`rowAttrList o`; and as a finite map (attribute name → value) that list equals what `encoding/xml` marshals for the
+`xlsxRow` the in-memory setters build from the same options (`SetRowStyle` → `s`+`customFormat`, `SetRowHeight` →
+`ht`+`customHeight`, `SetRowOutlineLevel` → `outlineLevel`, `SetRowVisible(false)` → `hidden`), whose struct order differs
+(`hidden` precedes `customHeight`). -/
+theorem row_attrs_eq_memory (x : Ext) (cfg : Cfg) (s : SW) (cell : Bytes) (values : List Item) (o : RowOpts)
+    (h : (setRow x cfg s cell values o).2 = none) :
+    (∃ rec_ ∈ (setRow x cfg s cell values o).1.log, rec_.attrs = renderAttrs (rowAttrList o)) ∧
+    ∀ k, attrOf (rowAttrList o) k = attrOf (marshalRowAttrs (Spec.rowRec o)) k := by
+  obtain ⟨col, row, attrs, cells, _, _, hm, _, _, _, _, _, hlog, _⟩ := setRow_accepted x cfg s cell values o h
+  refine ⟨⟨{ row := row, attrs := attrs, cells := cells }, by rw [hlog]; simp, ?_⟩, rowAttrs_eq_memory o⟩
+  exact marshalAttrs_renders o attrs hm
+
+/-- the struct tags of `xlsxRow` the row marshaller model follows (regenerated) -/
+theorem row_tags_ok :
+    (Facts.C11.tags_xlsxRow.map (fun f => (f.1, f.2.2))).take 9 =
+      [("C", "xml:\"c\""), ("R", "xml:\"r,attr,omitempty\""), ("Spans", "xml:\"spans,attr,omitempty\""),
+       ("S", "xml:\"s,attr,omitempty\""), ("CustomFormat", "xml:\"customFormat,attr,omitempty\""),
+       ("Ht", "xml:\"ht,attr\""), ("Hidden", "xml:\"hidden,attr,omitempty\""),
+       ("CustomHeight", "xml:\"customHeight,attr,omitempty\""), ("OutlineLevel", "xml:\"outlineLevel,attr,omitempty\"")] := by
+  decide
+
+/-! ## Flush: the part after `sheetData` in schema order -/
+
+/-- indices of the `xlsxWorksheet` fields in the order the stream writer emits them: prolog, pre-data, `cols` and
+`sheetData` by hand, the first Flush range, `mergeCells` by hand, the second range, `tableParts` by hand, the third range -/
+def emittedFields : List Nat :=
+  let rg := fun (r : Nat × Nat) => List.range' r.1 (r.2 + 1 - r.1)
+  Facts.C11.bulk_NewStreamWriter.flatMap rg ++ Facts.C11.bulk_writeSheetData.flatMap rg ++ [6, 7]
+    ++ (match Facts.C11.bulk_Flush with
+        | [r1, r2, r3] => rg r1 ++ [16] ++ rg r2 ++ [40] ++ rg r3
+        | _ => [])
+
+/-- **Schema order.** The stream writer emits the worksheet children in the order of the `xlsxWorksheet` struct
+(= the order of the schema): indices never decrease; the hand-written pieces sit at the positions of the fields they
+replace (`Cols` 6, `SheetData` 7, `MergeCells` 16, `TableParts` 40); page breaks (`RowBreaks` 25, `ColBreaks` 26) lie in
+the second Flush range; every index from 2 to 38 is emitted exactly once. -/
+theorem flush_schema_order :
+    emittedFields.Pairwise (· ≤ ·) ∧
+    Facts.C11.worksheetFields[6]? = some "Cols" ∧ Facts.C11.worksheetFields[7]? = some "SheetData" ∧
+    Facts.C11.worksheetFields[16]? = some "MergeCells" ∧ Facts.C11.worksheetFields[40]? = some "TableParts" ∧
+    Facts.C11.worksheetFields[25]? = some "RowBreaks" ∧ Facts.C11.worksheetFields[26]? = some "ColBreaks" ∧
+    (∀ i, 2 ≤ i → i ≤ 38 → emittedFields.count i = 1) := by
+  refine ⟨by decide +kernel, by decide, by decide, by decide, by decide, by decide, by decide, ?_⟩
+  intro i h1 h2
+  have : ∀ j : Fin 39, 2 ≤ j.val → emittedFields.count j.val = 1 := by decide +kernel
+  exact this ⟨i, by omega⟩ h1
+
+/-- Deviation from "exactly once": the worksheet's own `TableParts` field (index 40) is appended *after* the
+`<tableParts>` string of `AddTable` — two `tableParts` elements if the sheet already had one — and the fields
+`AlternateContent` (39), `ExtLst` (41) and `DecodeAlternateContent` (42) are never written: an `extLst`
+the worksheet had before `NewStreamWriter` (x14 conditional formats, sparklines) is dropped by the stream writer. -/
+theorem finding_flush_tableParts_twice_extLst_never :
+    emittedFields.count 40 = 2 ∧ emittedFields.count 41 = 0 ∧ emittedFields.count 39 = 0 ∧
+    Facts.C11.worksheetFields[41]? = some "ExtLst" ∧ Facts.C11.worksheetFields[39]? = some "AlternateContent" := by
+  refine ⟨by decide +kernel, by decide +kernel, by decide +kernel, by decide, by decide⟩
+
+/-- Flush writes, after the rows: `</sheetData>`, the first field range, the merge block (once, with the count of the
+accepted MergeCell calls and their references in call order), the second range, the table parts, the third range,
+`</worksheet>` — nothing else. -/
+theorem flush_epilogue (s : SW) (e : Epilog) :
+    epilogBytes s e = lit "</sheetData>" ++ bulk e (8, 15) ++ mergeBlock s ++ bulk e (17, 38) ++ e.tableParts
+      ++ bulk e (40, 40) ++ lit "</worksheet>" := by
+  rfl
+
+/-- Every accepted MergeCell adds its `<mergeCell ref="tl:br"/>` exactly once at the end of the merge list and counts
+one; a rejected one changes nothing. -/
+theorem mergeCell_once (s : SW) (tl br : Bytes) :
+    ((mergeCell s tl br).2 = none →
+      (mergeCell s tl br).1.mergeCells = s.mergeCells ++ lit "<mergeCell ref=\"" ++ tl ++ lit ":" ++ br ++ lit "\"/>" ∧
+      (mergeCell s tl br).1.mergeCount = s.mergeCount + 1) ∧
+    (∀ e, (mergeCell s tl br).2 = some e → (mergeCell s tl br).1 = s) := by
+  unfold mergeCell
+  constructor
+  · intro h
+    split at h
+    · simp at h
+    · split at h
+      · simp at h
+      · rename_i h1 _ _ h2; simp [h1, h2]
+  · intro e h
+    split
+    · rfl
+    · split
+      · rfl
+      · rename_i h1 _ _ h2; simp [h1, h2] at h
+
+/-- No other call touches the merge list: SetRow (accepted or rejected), column/pane calls, Reader and Flush leave
+`mergeCells` and `mergeCount` as they are. -/
+theorem merge_list_only_by_mergeCell (x : Ext) (cfg : Cfg) (s : SW) (op : Op) (h : ∀ tl br, op ≠ .merge tl br) :
+    (step x cfg s op).1.mergeCells = s.mergeCells ∧ (step x cfg s op).1.mergeCount = s.mergeCount := by
+  cases op with
+  | merge tl br => exact absurd rfl (h tl br)
+  | setRow cell vals o =>
+    simp only [step]
+    cases hres : (setRow x cfg s cell vals o).2 with
+    | some e => rw [setRow_rejected x cfg s cell vals o e hres]; exact ⟨rfl, rfl⟩
+    | none =>
+      unfold setRow at hres ⊢
+      split
+      · exact ⟨rfl, rfl⟩
+      · split
+        · exact ⟨rfl, rfl⟩
+        · split
+          · exact ⟨rfl, rfl⟩
+          · split
+            · exact ⟨rfl, rfl⟩
+            · simp only [writeSheetData]; split <;> exact ⟨rfl, rfl⟩
+  | colWidth a b w p => simp only [step, setColWidth]; repeat' split
+                        all_goals exact ⟨rfl, rfl⟩
+  | colStyle a b st p => simp only [step, setColStyle]; repeat' split
+                         all_goals exact ⟨rfl, rfl⟩
+  | panes ok p => simp only [step, setPanes]; repeat' split
+                  all_goals exact ⟨rfl, rfl⟩
+  | reader => exact ⟨rfl, rfl⟩
+  | flush e => simp only [step, flush, writeSheetData]; split <;> exact ⟨rfl, rfl⟩
 
 /-! ## ordering of column / pane calls relative to SetRow -/
 
